@@ -564,9 +564,25 @@ func writeEvidence(p *Prop, tier string, m *Rec, wall float64, vio int64, worker
 		names = append(names, f)
 	}
 	sort.Strings(names)
-	for _, f := range names {
-		for _, s := range m.Samples[f] {
-			samples = append(samples, map[string]any{"family": f, "case": s})
+	// the evidence file stays small: at most 60 samples (spread over the families in name order), every string inside
+	// one cut at 400 bytes - a sample illustrates a case, the replay files carry violations in full
+	perFam := 3
+	if len(names) > 20 {
+		perFam = 1
+	}
+	step := 1
+	if len(names) > 60 {
+		step = (len(names) + 59) / 60
+	}
+	for i, f := range names {
+		if i%step != 0 {
+			continue
+		}
+		for j, s := range m.Samples[f] {
+			if j >= perFam {
+				break
+			}
+			samples = append(samples, map[string]any{"family": f, "case": shorten(s)})
 		}
 	}
 	// a small view of the outcome classes
@@ -671,4 +687,41 @@ func Replay(path string) int {
 			v.Key, oneLine(v.Case), v.Expected, v.Observed)
 	}
 	return 1
+}
+
+// shorten returns v (as decoded JSON) with every string cut at 400 bytes.
+func shorten(v any) any {
+	b, err := json.Marshal(v)
+	if err != nil {
+		return fmt.Sprint(v)
+	}
+	var x any
+	if json.Unmarshal(b, &x) != nil {
+		return string(b)
+	}
+	var walk func(any) any
+	walk = func(y any) any {
+		switch t := y.(type) {
+		case string:
+			if len(t) > 400 {
+				return strings.ToValidUTF8(t[:400], "") + fmt.Sprintf("... (%d bytes)", len(t))
+			}
+			return t
+		case []any:
+			if len(t) > 50 {
+				t = append(t[:50:50], fmt.Sprintf("... (%d items)", len(t)))
+			}
+			for i := range t {
+				t[i] = walk(t[i])
+			}
+			return t
+		case map[string]any:
+			for k := range t {
+				t[k] = walk(t[k])
+			}
+			return t
+		}
+		return y
+	}
+	return walk(x)
 }
